@@ -97,6 +97,10 @@ class LegacyDFXPWriter(BaseWriter):
         self.open_span = False
 
     def write(self, caption_set, force=''):
+        # A span left open by an earlier write() on this object (a style start
+        # without its end) must not leak a closing tag into this document
+        self.open_span = False
+
         caption_set = deepcopy(caption_set)
         caption_set = merge_concurrent_captions(caption_set)
 
